@@ -178,8 +178,11 @@ def c07(res, tier, seed):
 def c09(res, tier, seed):
     b = build_harness(PKG)
     mc(res, b, "unk-te", BASE_TE, [1, 18, 48], ["setu", "rt", "udisc", "uenc", "merge"], D(tier, 2, 3), nest_at=18, nest_fields=[1, 2])
+    # schema evolution: every deletion of one or two of the touched fields (scalar, packed list, string list, group, message, map, oneof members)
+    mc(res, b, "evo-te", BASE_TE, [5, 16, 31, 44, 48, 56, 112, 113], ["evo", "setu"], 2, nest_at=0, laws=["AllWellFormed", "RoundTripLaw", "EvolutionLaw"],
+       flavs=[(BASE_TE, False), (BASE_TE, True), ("opaque." + BASE_TE, False)] if tier == "quick" else None)
     mc2(tier, res, b, "unk-t2", BASE_T2, [1, 16, 18], ["setu", "rt", "udisc"], 2, nest_at=18, nest_fields=[1])
-    finish(res, b, seed, tier, "mut=8,unmarshal=5,rt=3,marshal=2,merge=1")
+    finish(res, b, seed, tier, "mut=8,unmarshal=5,rt=3,marshal=2,merge=1,evo=4")
 
 
 REQ_TE = "goproto.proto.testeditions.TestRequiredForeign"
